@@ -1,6 +1,8 @@
 #pragma once
 #include <string>
 #include <memory>
+#include <limits>
+#include <type_traits>
 
 #include "data.h"
 #include "type.h"
@@ -52,6 +54,16 @@ namespace sqf
             float value() const { return m_value; }
             void value(float f) { m_value = f; }
             operator float() { return m_value; }
+            // Conversion to an integer type saturates (NaN becomes 0): converting a float that the
+            // target type cannot represent is undefined behavior, and scripts can pass any number.
+            template<typename T, typename = std::enable_if_t<std::is_integral_v<T> && !std::is_same_v<T, bool>>>
+            explicit operator T()
+            {
+                if (m_value != m_value) { return 0; }
+                if (m_value <= static_cast<float>(std::numeric_limits<T>::lowest())) { return std::numeric_limits<T>::lowest(); }
+                if (m_value >= static_cast<float>(std::numeric_limits<T>::max())) { return std::numeric_limits<T>::max(); }
+                return static_cast<T>(m_value);
+            }
             static void set_decimals(int val) { s_decimals = val; }
         };
 
